@@ -629,6 +629,18 @@ func isSuggest(targetT base.T, sig base.Sig) bool {
 	}
 
 	if sig.Class == objectClass {
+		// the same short name in another namespace is another class
+		targetFrame := targetT.GetFrame()
+
+		if targetFrame == "" && !base.IsClassDefinedIn("", objectClass) &&
+			slices.Contains(base.BuiltinClasses, objectClass) {
+			targetFrame = "Builtin"
+		}
+
+		if sig.Frame != targetFrame {
+			return false
+		}
+
 		return isStaticTarget == sig.IsStatic
 	}
 
